@@ -27,13 +27,14 @@ class FakeS3:
         self.lk = threading.Lock()
         self.calls: list[tuple] = []
         self.n = 0
+        self.delay = 0.02     # how long create_multipart_upload takes
 
     def create_multipart_upload(self, **kw):
         with self.lk:
             self.n += 1
             uid = f"upload-{self.n}"
             self.calls.append(("create", uid))
-        time.sleep(0.02)    # widen the window in which another worker could initiate too
+        time.sleep(self.delay)    # the window in which another worker could initiate too
         return {"UploadId": uid}
 
     def upload_part(self, **kw):
@@ -85,7 +86,7 @@ def task_finalise(writer, parts):
 
 
 def real_cluster_check(rounds: int = 3, nwriters: int = 6, timeout: float = 120.0, late_rounds: int = 1,
-                       reuse_rounds: int = 0) -> dict:
+                       reuse_rounds: int = 0, slow_rounds: int = 0, slow_create: float = 4.0) -> dict:
     """`rounds` objects, each written by `nwriters` concurrent first writes submitted as
     tasks to a 2-worker in-process cluster (every task unpickles its own copy of the
     writer), then finalised.  The first `late_rounds` writers are created BEFORE the client
@@ -126,7 +127,7 @@ def real_cluster_check(rounds: int = 3, nwriters: int = 6, timeout: float = 120.
     runs = []
     problems = []
     try:
-        for r in range(len(early) + rounds + reuse_rounds):
+        for r in range(len(early) + rounds + reuse_rounds + slow_rounds):
             skip_calls = 0
             if r < len(early):
                 # a get on the never-set variable has to run into its time-out (twice, by the initiating task)
@@ -137,7 +138,13 @@ def real_cluster_check(rounds: int = 3, nwriters: int = 6, timeout: float = 120.
                 stretch[0] = 5.0
                 with _REG_LOCK:
                     _REG.pop(key, None)
-                if r >= len(early) + rounds:
+                if r >= len(early) + rounds + reuse_rounds:
+                    # S3 answers the initiation slowly: everybody else has to WAIT for the lock that long
+                    key = f"real-cluster/slow-object-{r - len(early) - rounds - reuse_rounds}.tif"
+                    with _REG_LOCK:
+                        _REG.pop(key, None)
+                    fake_s3(key).delay = slow_create
+                elif r >= len(early) + rounds:
                     key = f"real-cluster/reused-object-{r - len(early) - rounds}.tif"
                     with _REG_LOCK:
                         _REG.pop(key, None)
